@@ -241,6 +241,17 @@ def run(res):
             k = int(np.argmax(bad))
             res.violations.append(dict(what='deviance residual is not sign(y - mu) sqrt(deviance)', finding=None, input=dict(d, row=k),
                                        observed=float(dr[ok][k]), expected=float(np.sign((ye - mue)[ok][k]) * np.sqrt(devs[ok][k]))))
+        # scaled residuals: sign(y - mu) sqrt(w d / scale), independently of the distribution's own `scaled` switch
+        with np.errstate(all='ignore'):
+            drs = gam.deviance_residuals(Xe, ye, weights=we, scaled=True)
+        sc_ = float(gam.distribution.scale)
+        ok2 = ok & np.isfinite(drs)
+        bad2 = ~np.isclose(drs[ok2] ** 2 * sc_, devs[ok2], rtol=1e-9, atol=1e-12) | (np.sign(drs[ok2]) != np.sign((ye - mue)[ok2]) * (devs[ok2] > 0))
+        res.case(('dev_resid_scaled', i))
+        if bad2.any():
+            k = int(np.argmax(bad2))
+            res.violations.append(dict(what='scaled deviance residual is not sign(y - mu) sqrt(deviance / scale)', finding=None, input=dict(d, row=k, scale=sc_),
+                                       observed=float(drs[ok2][k]), expected=float(np.sign((ye - mue)[ok2][k]) * np.sqrt(devs[ok2][k] / sc_))))
         if cls == 'LogisticGAM':
             acc = float(gam.accuracy(Xe, ye))
             ref = float(np.mean((mue > 0.5).astype(int) == ye))
